@@ -92,7 +92,7 @@ func c07PProf(cmd string, cs *c07Case, srcs, bases []string) *c07Proc {
 		args:    srcs,
 	}
 	switch cs.Gran {
-	case "lines", "files", "addresses":
+	case "lines", "files", "addresses", "filefunctions":
 		f.bools[cs.Gran] = true
 	}
 	if len(bases) > 0 {
